@@ -219,7 +219,12 @@ impl SplitterSet {
     }
 
     fn take_list(&mut self, b: u32) -> SplitterList {
-        std::mem::take(&mut self.list[b as usize])
+        // a block made only of states without predecessors never received a splitter:
+        // self.list may be shorter than b + 1 (see add_splitter)
+        match self.list.get_mut(b as usize) {
+            Some(l) => std::mem::take(l),
+            None => SplitterList::default(),
+        }
     }
 
     fn add_splitter(&mut self, s: &Splitter) {
